@@ -416,6 +416,12 @@ func vfC13Run(t *testing.T, res *vfResult, c vfC13Case, stale []byte) (issued []
 				reqs++
 				cookieRequests++
 				res.Count("cookie_requests_observed", 1)
+				// a sender that never sees the request (spoofed source) can only guess: a cookie made of one repeated
+				// byte value is a guess that succeeds, so issuing one defeats the exchange
+				if ckb, _ := vfC13Cookie(w.Data); len(ckb) >= 8 && bytes.Count(ckb, ckb[:1]) == len(ckb) {
+					res.Violate(fmt.Sprintf("C13:%s:predictable-cookie-issued:%s", vfC13Family(c.Cfg), vfC13StepClass(name)),
+						fmt.Sprintf("the server issued the cookie %x (%d equal bytes) in step %q: a blind sender can echo it without having received the request; %s", ckb, len(ckb), name, c.ID()), replay)
+				}
 			case strings.HasPrefix(kind, "type21-"):
 				res.Count("alerts_observed", 1)
 			case !validated:
